@@ -604,9 +604,13 @@ def _wmpt_ops(events):
 
 WMPT = dict(
     name="wmpt", component="wmpt", trace_module="WMPTTrace", trace_cfg="WMPTTrace.cfg",
-    design={"quick": [("WMPT_MC", "WMPT_MCq.cfg"), ("WMPT_MC", "WMPT_MCrw.cfg"), ("WMPTGC", "WMPTGC_distinct.cfg")],
-            "thorough": [("WMPT_MC", "WMPT_MC.cfg"), ("WMPT_MC", "WMPT_MCrw.cfg"), ("WMPTGC", "WMPTGC_distinct.cfg")]},
-    mutants={t: [("WMPTGC", "WMPTGC_shared.cfg", "Durable")] for t in ("quick", "thorough")},
+    design={"quick": [("WMPT_MC", "WMPT_MCq.cfg"), ("WMPT_MC", "WMPT_MCrw.cfg"), ("WMPTGC", "WMPTGC_distinct.cfg"),
+                      ("WMPTAlg_MC", "WMPTAlg_fixed.cfg")],
+            "thorough": [("WMPT_MC", "WMPT_MC.cfg"), ("WMPT_MC", "WMPT_MCrw.cfg"), ("WMPTGC", "WMPTGC_distinct.cfg"),
+                         ("WMPTAlg_MC", "WMPTAlg_fixed6.cfg")]},
+    mutants={t: [("WMPTGC", "WMPTGC_shared.cfg", "Durable"), ("WMPTAlg_MC", "WMPTAlg_orig-reweigh.cfg", "Refines"),
+                 ("WMPTAlg_MC", "WMPTAlg_nibblezero.cfg", "Refines"), ("WMPTAlg_MC", "WMPTAlg_nomerge.cfg", "Refines")]
+             for t in ("quick", "thorough")},
     gen={"quick": [dict(module="WMPT_MC", cfg="WMPT_gen_sim.cfg", workers=1,
                         extra=["-simulate", "num=1200", "-depth", "20", "-seed", "{seed}"]),
                    dict(module="WMPT_MC", cfg="WMPT_gen_ex.cfg", workers=8),
@@ -616,7 +620,7 @@ WMPT = dict(
                       dict(module="WMPT_MC", cfg="WMPT_gen_sim.cfg", workers=1, timeout=3000,
                            extra=["-simulate", "num=40000", "-depth", "20", "-seed", "{seed}"])]},
     exec_args=lambda tier, seed: (["-n", 1200] if tier == "quick" else ["-n", 30000]),
-    flags={"C09": {"weight", "change", "owner", "root", "rootfn", "range", "res", "unknown-op"},
+    flags={"C09": {"weight", "change", "owner", "root", "rootfn", "wshape", "range", "res", "unknown-op"},
            "C11": {"durable", "commitincomplete", "reopen", "storekeys"},
            "C13": {"rollbackroot", "rollbackweight", "rollbackdamage", "rollbackleft", "rollbackreopen", "rollbackdurable"}},
     distinct=lambda s: s.get("distinct_signatures", 0),
